@@ -215,6 +215,12 @@ fn run_dir(c: &DirCase, sink: &mut Sink) -> (Verdict, Option<u64>, Value) {
     let by = crate::util::add_bystanders(&mut hdrs, crate::util::hash64(&(&c.path, &c.accept_encoding, c.auto_gzip)));
     let mut desc = desc;
     desc["other_request_headers"] = json!(by);
+    if !by.is_empty() {
+        sink.count("cases_with_other_request_headers");
+    }
+    if by.contains(&"range") && by.contains(&"if-range") {
+        sink.count("cases_with_range_and_if_range");
+    }
     let d = if c.auto_gzip { dirs().0.clone() } else { dirs().1.clone() };
     let h2 = hdrs.clone();
     let p2 = path.clone();
@@ -417,7 +423,7 @@ impl Prop for C19 {
         "exploration"
     }
     fn rule(&self, ctx: &Ctx) -> String {
-        format!("exhaustive: every path of <= {} segments over {{a, sub, .., ., ..., ..a, a.., empty, secret}} joined by '/', with and without a leading slash (trailing slashes = empty last segment), plus names around the .gz logic (file with sibling, file without, sibling that is a directory, sibling that is a character device, empty sibling, .gz-only name, directory with a .gz file sibling, names of 200..255 bytes - with a sibling where one fits in a directory entry; siblings older and newer than their originals); a NUL byte inserted at every position of 300 of them; x Accept-Encoding {{absent, gzip, identity, gzip;q=0, *, gzip;q=0.5 vs identity;q=0.6}} x auto_gzip on/off; on a real tree with a 'secret' file next to the base directory. Oracle: in-memory POSIX relative-path resolver (self-checked against the kernel on every non-rejected path) giving the expected (dev, inode) or errno. Every regular file opened is also turned into an entity (`into_file_entity`) and read back: its bytes must be those of the file the path names (each file contains its own path). Non-trivial = distinct (path, Accept-Encoding, auto_gzip) judged; descriptor count of the process must return to its baseline. One FsDir is also queried while its tree changes (sibling created, turned into a directory, removed; original removed and re-created)", max_segs(ctx))
+        format!("three quarters of the cases carry a case-derived subset of 11 other request headers (Range, If-Range, validators, Content-Encoding, TE, Accept, ...; counters cases_with_other_request_headers / cases_with_range_and_if_range) next to Accept-Encoding, which must not change the node returned. exhaustive: every path of <= {} segments over {{a, sub, .., ., ..., ..a, a.., empty, secret}} joined by '/', with and without a leading slash (trailing slashes = empty last segment), plus names around the .gz logic (file with sibling, file without, sibling that is a directory, sibling that is a character device, empty sibling, .gz-only name, directory with a .gz file sibling, names of 200..255 bytes - with a sibling where one fits in a directory entry; siblings older and newer than their originals); a NUL byte inserted at every position of 300 of them; x Accept-Encoding {{absent, gzip, identity, gzip;q=0, *, gzip;q=0.5 vs identity;q=0.6}} x auto_gzip on/off; on a real tree with a 'secret' file next to the base directory. Oracle: in-memory POSIX relative-path resolver (self-checked against the kernel on every non-rejected path) giving the expected (dev, inode) or errno. Every regular file opened is also turned into an entity (`into_file_entity`) and read back: its bytes must be those of the file the path names (each file contains its own path). Non-trivial = distinct (path, Accept-Encoding, auto_gzip) judged; descriptor count of the process must return to its baseline. One FsDir is also queried while its tree changes (sibling created, turned into a directory, removed; original removed and re-created)", max_segs(ctx))
     }
     fn n_blocks(&self, _: &Ctx) -> usize {
         12 + 1 + 1
